@@ -480,3 +480,13 @@ Theorem canonical_cycle f : in_range f = true -> canonical f = true ->
 Proof.
   intros Hr Hc. eexists. rewrite (cycle_normal_form f Hr), (normalize_canonical f Hc). reflexivity.
 Qed.
+
+Lemma version_print_parse_lemma :
+  forall v : N, (ver_to_milli v < 65536000)%N ->
+    version_from_string (s_Version_sp ++ version_string v) = Some (norm_version v)
+    /\ ver_to_milli (norm_version v) = ver_to_milli v.
+Proof.
+  intros v H. split.
+  - unfold version_string. apply version_from_string_print.
+  - unfold norm_version. apply ver_to_milli_of_decimal. exact H.
+Qed.
